@@ -301,3 +301,29 @@ MUTANTS = [
     {"name": "shrink-copies-current-size", "file": AL, "expect": "BOUND",
      "old": "memcpy(raw_data, list->data, ideal_size);", "new": "memcpy(raw_data, list->data, list->current_size);"},
 ]
+
+
+def mem_swap_cover(R, P):
+    """COVER obligation for the sliced element swap (shared with C06)"""
+    f = P.fn("aws_array_list_mem_swap")
+    if not R.require(f is not None, "aws_array_list_mem_swap not found"):
+        return
+    num = Num(f, P, EntryExtents(AwsHooks(), f, PAIRS["aws_array_list_mem_swap"]))
+    try:
+        exits = num.states_at({-1}).get(-1, [])
+    except Limit as ex:
+        R.broken(str(ex))
+        return
+    R.require(len(exits) >= 1, "mem_swap: no exit state")
+    for st in exits:
+        it0 = st.notes.get("orig", {}).get("v:item1")
+        sz0 = st.notes.get("orig", {}).get("v:item_size")
+        curp = st.env.get("v:item1")
+        tail = Poly.const(0)
+        for (ln_, addr, size) in st.notes.get("memw_full", []):
+            if addr is not None and curp is not None and addr == curp and size is not None:
+                tail = size
+        ok = it0 and sz0 and curp is not None and eq(st, curp - Poly.atom(it0) + tail, Poly.atom(sz0))
+        R.check(bool(ok), "COVER", "mem_swap:all-bytes", "%s() exit" % f.name, "slices plus remainder cover exactly item_size bytes",
+                "the sliced swap covers %r bytes of an element of %s bytes: part of the element is not exchanged (element sizes that are multiples of the slice)" %
+                ((curp - Poly.atom(it0) + tail) if (it0 and curp is not None) else None, sz0))
